@@ -1055,10 +1055,38 @@ def fam_search(P, n, tier):
     return out
 
 
+def fam_exh(P, n, tier):
+    """bounded-exhaustive: EVERY input string up to a length bound over the syntactic alphabet of the line
+    grammar, against one fixed table with prefix-related names, followed by a line feed and a drain
+    (quick: all strings of length <= 3, thorough: <= 4).  Not sampled: exhaustive within the bound."""
+    import itertools
+    alpha = ['A', 'T', '+', 'X', 'Y', '?', '=', '1', ',', '\r', '\n']
+    maxlen = 3 if tier == 'quick' else 4
+    out = []
+    idx = 0
+    for L in range(0, maxlen + 1):
+        for tup in itertools.product(alpha, repeat=L):
+            s = ''.join(tup)
+            sc = Scn('exh%d' % idx, cap=2, buf_size=24, ubuf_size=-1, fill=0x55, mutex=False)
+            idx += 1
+            sc.add_group([Cmd('+X', vars=[Var(UINT, 1, RW, init=b'\x07')], t=False),
+                          Cmd('X', run=True, r=True),
+                          Cmd('+XY', r=True, w=True, t=True),
+                          Cmd('Y', w=True, implicit=True)])
+            sc.script(1, 1, 0, [Res(RC['DATA_OK'], b'x')] * 2)
+            sc.script(1, 2, 0, [Res(RC['DATA_OK'], b'y')] * 2)
+            sc.feed(s + '\n')
+            sc.drain(400)
+            sc.feed('AT+X?\n')          # the parser must be back in shape for a normal line
+            sc.drain(400)
+            out.append(sc)
+    return out
+
+
 FAMILIES = {
     'mixed': fam_mixed, 'names': fam_names, 'num': fam_num, 'buf': fam_buf, 'cap': fam_cap, 'rc': fam_rc,
     'events': fam_events, 'hold': fam_hold, 'mutex': fam_mutex, 'lines': fam_lines, 'rt': fam_rt,
-    'wo': fam_wo, 'list': fam_list, 'bytes': fam_bytes, 'sched': fam_sched, 'units': fam_units, 'lanes': fam_lanes, 'search': fam_search,
+    'wo': fam_wo, 'list': fam_list, 'bytes': fam_bytes, 'sched': fam_sched, 'units': fam_units, 'lanes': fam_lanes, 'search': fam_search, 'exh': fam_exh,
 }
 
 
